@@ -137,9 +137,9 @@ class BudgetAccountant:
 
     def __init__(self, epsilon=float("inf"), delta=1.0, slack=0.0, spent_budget=None):
         check_epsilon_delta(epsilon, delta)
-        self.__epsilon = epsilon
-        self.__min_epsilon = 0 if epsilon == float("inf") else epsilon * 1e-14
-        self.__delta = delta
+        self.__epsilon = float(epsilon)
+        self.__min_epsilon = 0 if epsilon == float("inf") else self.__epsilon * 1e-14
+        self.__delta = float(delta)
         self.__spent_budget = []
         self.slack = slack
 
@@ -253,9 +253,11 @@ class BudgetAccountant:
         elif not 0 <= slack <= self.delta:
             raise ValueError(f"Slack must be between 0 and delta ({self.delta}), inclusive. Got {slack}.")
 
+        slack = float(slack)
         epsilon_sum, epsilon_exp_sum, epsilon_sq_sum = 0, 0, 0
 
         for epsilon, _ in spent_budget:
+            epsilon = float(epsilon)
             epsilon_sum += epsilon
             epsilon_exp_sum += (1 - np.exp(-epsilon)) * epsilon / (1 + np.exp(-epsilon))
             epsilon_sq_sum += epsilon ** 2
@@ -403,7 +405,7 @@ class BudgetAccountant:
         """
         delta_spend = [slack]
         for _, delta in spent_budget:
-            delta_spend.append(delta)
+            delta_spend.append(float(delta))
         delta_spend.sort()
 
         # (1 - a) * (1 - b) = 1 - (a + b - a * b)
